@@ -4,6 +4,7 @@ from engine.facts import CannotDecide
 from engine.shape import Explorer, STAR, Budget
 from .shape_common import classify, SinkAut, find_cell_accessors, server_chains, chain_name, run_jobs
 
+EXTRA_CONFIGS = ('default', 'tokio1', 'serde1', 'serde-transport')   # feature configurations re-analysed in the thorough tier
 META = {
     'level': 'other',
     'technique': 'static typestate analysis: explicit-state abstract interpretation of the MIR (shape walker) with a sink automaton, functional summaries, devirtualisation over channel decorator chains, may/must event labels for the no-spin cycle rule',
